@@ -913,7 +913,7 @@ def _run_smoother(kernel, y, nodata, lam=None, p=None, llas=None, robust=False, 
     return np.asarray(o).astype("float64"), float(l)
 
 
-def c02_placeholder(kernel, data, nd1, nd2, special=None, robust=False, lc=0.7, grid=3, lam=1.0, p=0.5, l0=0.0, lstep=1.0):
+def c02_placeholder(kernel, data, nd1, nd2, special=None, robust=False, lc=0.7, grid=3, lam=1.0, p=0.5, l0=0.0, lstep=1.0, huge=False):
     rng = np.random.default_rng(3)
     mix = None
     if special and special.startswith("mix"):
@@ -939,10 +939,16 @@ def c02_placeholder(kernel, data, nd1, nd2, special=None, robust=False, lc=0.7, 
         v2 = [valid[int(i * len(valid) / L)] for i in range(L)]
         series.append((s, v2))
     placeholders = [(int(nd1), int(nd2)), (-3000, 1500), (0, 32767), (-3000, 9999)]
+    if huge:
+        # placeholders near the float64 limit (GDAL's Float64 'lowest' / 'max'), float32 max and 1e200: their squares overflow
+        fmax = float(np.finfo("float64").max)
+        placeholders = [(-3000, -fmax), (-3000, fmax), (-3000, -1e200), (-3000, float(np.finfo("float32").max))] + placeholders[:1]
     for (vals, vmask), (a, b), g in [(s_, p_, g_) for s_ in series for p_ in placeholders[:2] for g_ in grids[:2]] + \
             [(series[-1], placeholders[2], grids[2]), (series[-2], placeholders[3], grids[2])]:
         vmask = np.array(vmask)
         if special is None and (np.any(vals[vmask] == a) or np.any(vals[vmask] == b)):
+            continue
+        if kernel == "ws2doptvplc" and (abs(a) > 32767 or abs(b) > 32767):
             continue
         y1 = np.where(vmask, vals, a).astype("float64")
         y2 = np.where(vmask, vals, b if sp is None else sp).astype("float64")
